@@ -134,7 +134,7 @@ def run(res, tier, seed, replay_script=None):
         bad = False
         for st in steps:
             if st.exc is not None:
-                if st.exc[0] == "hang" and not gl.still_hangs(drv, script, st.cmd, wd):
+                if st.exc[0] == "hang":      # running time / termination is not part of this statement (C08's clause): counted, the case ends
                     stats["slow_calls_skipped"] = stats.get("slow_calls_skipped", 0) + 1
                 elif st.exc[0] in ("hang",) or st.exc[0].startswith("crash"):
                     res.violation("no-return:" + st.cmd.split()[0], "%s -> %s [%s]" % (st.cmd, st.exc, script[1]), replay)
@@ -266,7 +266,7 @@ def run(res, tier, seed, replay_script=None):
     if proof_broken and not res.violations:
         res.violation("proof", "proof obligations of Properties_C02.v no longer check (%d/%d) %s" % (props["discharged"], props["obligations"], res.coverage["forbidden_tokens"][:2]),
                       {"kind": "proof-break", "theorems": props["theorems"], "log": props["log"][-3000:]}, no_input=True)
-    res.coverage["slow_calls_completed_under_the_long_limit_skipped"] = stats.get("slow_calls_skipped", 0)
+    res.coverage["calls_not_returning_within_the_case_limit_not_judged"] = stats.get("slow_calls_skipped", 0)
     res.coverage.update({
         "evaluations": stats["monomials"], "distinct_nontrivial": nontrivial,
         "rule": "grid = random (Global rule incl. Gauss families with alpha/beta | Sequence rule | Fourier) x dims 1-3 x all 12 depth types x anisotropic weights x limits "
